@@ -19,6 +19,7 @@
 #include "spec.h"
 #include "openssl_model.h"
 extern const void *g_rs_buf, *g_rs_r, *g_rs_s; extern size_t g_rs_rn, g_rs_sn;	/* GnuTLS model: last gnutls_encode_rs_value */
+extern unsigned g_rs_freed;
 
 /* HMAC primitive */
 extern const void *g_mac_key;  extern size_t g_mac_keylen;
@@ -41,7 +42,7 @@ extern int g_sgn_done;		/* 1 iff the primitive produced a signature */
 
 #define OPS_PRIM_GHOSTS_MAC g_mac_key, g_mac_keylen, g_mac_data, g_mac_len, g_mac_hash, g_mac_out, g_lib_fail
 #define OPS_PRIM_GHOSTS_VER g_ver_keymat, g_ver_data, g_ver_len, g_ver_hash, g_ver_pss, g_ver_family, g_ver_sig, \
-	g_ver_siglen, g_ver_raw_r, g_ver_raw_s, g_ver_raw_n, g_ver_valid, g_der_buf, g_der_sig, g_lib_fail, g_ver_calls, g_rs_buf, g_rs_r, g_rs_s, g_rs_rn, g_rs_sn
+	g_ver_siglen, g_ver_raw_r, g_ver_raw_s, g_ver_raw_n, g_ver_valid, g_der_buf, g_der_sig, g_lib_fail, g_ver_calls, g_rs_buf, g_rs_r, g_rs_s, g_rs_rn, g_rs_sn, g_rs_freed
 #define OPS_PRIM_GHOSTS_SGN g_sgn_keymat, g_sgn_data, g_sgn_len, g_sgn_hash, g_sgn_pss, g_sgn_done, g_lib_fail
 #define OPS_GHOST_ASSIGNS_SIGN g_mac_key, g_mac_keylen, g_mac_data, g_mac_len, g_mac_hash, g_mac_out, OPS_PRIM_GHOSTS_SGN
 #define OPS_GHOST_ASSIGNS g_mac_key, g_mac_keylen, g_mac_data, g_mac_len, g_mac_hash, g_mac_out, g_sgn_keymat, g_sgn_data, g_sgn_len, g_sgn_hash, g_sgn_pss, g_sgn_done, OPS_PRIM_GHOSTS_VER
